@@ -2,6 +2,7 @@ package openapiv3
 
 import (
 	"fmt"
+	"slices"
 	"strconv"
 
 	"github.com/pb33f/libopenapi/datamodel/high/base"
@@ -31,6 +32,15 @@ func extractValidationConstraints(field *protogen.Field, schema *base.Schema) {
 	fieldConstraints, ok := ext.(*validate.FieldRules)
 	if !ok || fieldConstraints == nil {
 		return
+	}
+
+	// A repeated field is converted in two passes, one for the item schema and one for the
+	// array schema: the rules of the items are those under repeated.items.
+	if field.Desc.IsList() && !slices.Contains(schema.Type, "array") {
+		fieldConstraints = fieldConstraints.GetRepeated().GetItems()
+		if fieldConstraints == nil {
+			return
+		}
 	}
 
 	// Apply constraints based on field type
